@@ -6,6 +6,7 @@
 #![feature(allocator_api)]
 #![allow(unused_imports, dead_code, unused_variables, unused_mut, unused_assignments, unreachable_code, unused_parens, non_snake_case)]
 #![verifier::allow(autoderive_clone_without_spec)]
+extern crate alloc;
 use vstd::prelude::*;
 use vstd::std_specs::hash::*;
 use vstd::std_specs::cmp::*;
